@@ -231,8 +231,11 @@ def order_insensitive_reductions(ctx, rule='C16-R2'):
                     continue
                 occ = _lc_occurrences(v, lambda x: any(sc.namey(it, frozenset()) for it, _ in x[3]))
                 for lc, parent in occ:
-                    if parent is None and (e.kind == 'assign' or (e.kind == 'return' and e.ctx)):
-                        continue     # bound to a local / handed back by a helper: judged where it is consumed
+                    if parent is None and (e.kind == 'assign' or (e.kind == 'return' and e.ctx) or
+                                           (e.kind == 'call' and e.call == lc)):
+                        # bound to a local / handed back by a helper / the value of a call that was read as a
+                        # comprehension (`masks.values()` of a dict comprehension): judged where it is consumed
+                        continue
                     key = (lc, parent)
                     if key in seen:
                         continue
